@@ -172,7 +172,7 @@ theorem rest_weight (l : List Field) : l.length ≤ (l.map Field.w).sum := by
     matches none. -/
 theorem accounting_sound (names : List String) (hnd : names.Nodup) (hne : names ≠ []) (fs : List Field)
     (hwf : ∀ f ∈ fs, Field.wf f) (vals : String → J) (hpres : ∀ n ∈ names, lookupField fs n = some (vals n))
-    (hlen : J.len (.obj fs) = 2 + (names.map (fun n => n.length + 3 + J.len (vals n))).sum + (names.length - 1)) :
+    (hlen : J.len (.obj fs) ≤ 2 + (names.map (fun n => n.length + 3 + J.len (vals n))).sum + (names.length - 1)) :
     (∀ n ∈ names, (fs.filter (fieldIs n)).length = 1) ∧ restFields names fs = [] := by
   rw [len_obj] at hlen
   have hw := buckets_split Field.w names hnd fs
@@ -223,5 +223,560 @@ theorem accounting_sound (names : List String) (hnd : names.Nodup) (hne : names 
         · exact ih (by omega) x hx
     exact this names _ hsum0 n hn
   omega
+
+
+/-! ### the tokeniser's contract, for a whole tree -/
+
+mutual
+  /-- every key lexeme is at least two bytes longer than its decoded key has characters, and every
+      string lexeme at least two bytes longer than its decoded value has bytes -/
+  def J.WF : J → Prop
+    | .str lex val _ => val.utf8ByteSize + 2 ≤ lex.utf8ByteSize
+    | .arr items => J.WFItems items
+    | .obj fs => J.WFFields fs
+    | _ => True
+  def J.WFItems : List J → Prop
+    | [] => True
+    | x :: xs => J.WF x ∧ J.WFItems xs
+  def J.WFFields : List Field → Prop
+    | [] => True
+    | f :: fs => Field.wf f ∧ J.WF f.2.2 ∧ J.WFFields fs
+end
+
+theorem wfFields_mem {fs : List Field} (h : J.WFFields fs) : ∀ f ∈ fs, Field.wf f ∧ J.WF f.2.2 := by
+  induction fs with
+  | nil => intro f hf; cases hf
+  | cons g gs ih =>
+    intro f hf
+    simp only [J.WFFields] at h
+    rcases List.mem_cons.1 hf with rfl | hf
+    · exact ⟨h.1, h.2.1⟩
+    · exact ih h.2.2 f hf
+
+theorem wfItems_mem {xs : List J} (h : J.WFItems xs) : ∀ x ∈ xs, J.WF x := by
+  induction xs with
+  | nil => intro x hx; cases hx
+  | cons y ys ih =>
+    intro x hx
+    simp only [J.WFItems] at h
+    rcases List.mem_cons.1 hx with rfl | hx
+    · exact h.1
+    · exact ih h.2 x hx
+
+theorem lookup_mem {fs : List Field} {n : String} {v : J} (h : lookupField fs n = some v) :
+    ∃ f ∈ fs, f.2.2 = v := by
+  obtain ⟨fl, hl, hv⟩ := lookup_some_bucket h
+  have : fl ∈ fs.filter (fieldIs n) := List.mem_of_getLast? hl
+  exact ⟨fl, (List.mem_filter.1 this).1, hv⟩
+
+theorem lookup_wf {fs : List Field} {n : String} {v : J} (hwf : J.WFFields fs) (h : lookupField fs n = some v) : J.WF v := by
+  obtain ⟨f, hf, hv⟩ := lookup_mem h
+  rw [← hv]; exact (wfFields_mem hwf f hf).2
+
+/-- "exactly these keys, once each, and no other" (keys compared as `encoding/json` does) -/
+def exactKeys (names : List String) (fs : List Field) : Prop :=
+  (∀ n ∈ names, (fs.filter (fieldIs n)).length = 1) ∧ restFields names fs = []
+
+/-! ### AddressAmountTuple -/
+
+theorem decTuple_keys {P : Params} {j : J} {tr : Transfer} (hwf : J.WF j) (h : decTuple P j = some tr) :
+    ∃ fs, j = .obj fs ∧ exactKeys ["address", "amount"] fs := by
+  unfold decTuple at h
+  cases j with
+  | obj fs =>
+    refine ⟨fs, rfl, ?_⟩
+    simp only at h
+    cases ha : lookupField fs "address" with
+    | none => rw [ha] at h; cases h
+    | some aj =>
+      cases hn : lookupField fs "amount" with
+      | none => rw [ha, hn] at h; cases h
+      | some nj =>
+        rw [ha, hn] at h
+        simp only at h
+        cases hda : decAddr P aj with
+        | none => rw [hda] at h; simp at h
+        | some a =>
+          cases hdn : decUint nj with
+          | none => rw [hda, hdn] at h; simp at h
+          | some n =>
+            rw [hda, hdn] at h
+            simp only at h
+            by_cases hl : 22 + J.len aj + J.len nj = J.len (.obj fs)
+            · have hw : ∀ f ∈ fs, Field.wf f := fun f hf => (wfFields_mem (by simpa [J.WF] using hwf) f hf).1
+              apply accounting_sound ["address", "amount"] (by decide) (by simp) fs hw
+                (fun n => if n = "address" then aj else nj)
+              · intro n hn'
+                simp only [List.mem_cons, List.mem_nil_iff, or_false] at hn'
+                rcases hn' with rfl | rfl
+                · simpa using ha
+                · simpa using hn
+              · rw [← hl]
+                simp only [List.map_cons, List.map_nil, List.sum_cons, List.sum_nil, List.length_cons, List.length_nil]
+                have e1 : "address".length = 7 := by decide
+                have e2 : "amount".length = 6 := by decide
+                simp [e1, e2]
+                omega
+            · rw [if_neg hl] at h; cases h
+  | _ => simp at h
+
+
+/-! ### TypedAddressAmountTuple -/
+
+theorem tickerName_of_string {P : Params} {s : String} {ty : Ticker} (h : stringToTicker P s = ty)
+    (hv : validTicker P ty = true) : tickerName P ty = s := by
+  unfold stringToTicker at h
+  unfold tickerName
+  rw [if_pos hv]
+  cases hf : P.tickerNames.findIdx? (· == s) with
+  | none =>
+    rw [hf] at h
+    simp only at h
+    subst h
+    simp [validTicker] at hv
+  | some i =>
+    rw [hf] at h
+    simp only at h
+    subst h
+    obtain ⟨hi, hp, _⟩ := List.findIdx?_eq_some_iff_getElem.1 hf
+    simp only [Nat.add_sub_cancel]
+    rw [List.getD_eq_getElem?_getD, List.getElem?_eq_getElem hi]
+    simpa using hp
+
+theorem size_ofList_cons (c : Char) (cs : List Char) :
+    (String.ofList (c :: cs)).utf8ByteSize = (String.ofList [c]).utf8ByteSize + (String.ofList cs).utf8ByteSize := by
+  have : c :: cs = [c] ++ cs := rfl
+  rw [this, String.ofList_append, String.utf8ByteSize_append]
+
+theorem size_ofList_append (l₁ l₂ : List Char) :
+    (String.ofList (l₁ ++ l₂)).utf8ByteSize = (String.ofList l₁).utf8ByteSize + (String.ofList l₂).utf8ByteSize := by
+  rw [String.ofList_append, String.utf8ByteSize_append]
+
+theorem size_ofList_reverse (l : List Char) : (String.ofList l.reverse).utf8ByteSize = (String.ofList l).utf8ByteSize := by
+  induction l with
+  | nil => rfl
+  | cons c cs ih =>
+    rw [List.reverse_cons, size_ofList_append, ih, size_ofList_cons c cs]
+    omega
+
+theorem size_dropWhile_le (p : Char → Bool) (l : List Char) :
+    (String.ofList (l.dropWhile p)).utf8ByteSize ≤ (String.ofList l).utf8ByteSize := by
+  induction l with
+  | nil => exact Nat.le_refl _
+  | cons c cs ih =>
+    simp only [List.dropWhile_cons]
+    split
+    · rw [size_ofList_cons c cs]; omega
+    · exact Nat.le_refl _
+
+theorem trimQuotes_size_le (s : String) : (trimQuotes s).utf8ByteSize ≤ s.utf8ByteSize := by
+  unfold trimQuotes
+  calc (String.ofList ((s.toList.dropWhile (· == '"')).reverse.dropWhile (· == '"')).reverse).utf8ByteSize
+      = (String.ofList ((s.toList.dropWhile (· == '"')).reverse.dropWhile (· == '"'))).utf8ByteSize := size_ofList_reverse _
+    _ ≤ (String.ofList (s.toList.dropWhile (· == '"')).reverse).utf8ByteSize := size_dropWhile_le _ _
+    _ = (String.ofList (s.toList.dropWhile (· == '"'))).utf8ByteSize := size_ofList_reverse _
+    _ ≤ (String.ofList s.toList).utf8ByteSize := size_dropWhile_le _ _
+    _ = s.utf8ByteSize := by simp
+
+/-- the canonical spelling of a decoded ticker is no longer than the bytes it was decoded from -/
+theorem tickerOfBytes_size {P : Params} {data : String} {ty : Ticker} (h : tickerOfBytes P data = some ty)
+    (hv : validTicker P ty = true) : (tickerName P ty).utf8ByteSize ≤ data.utf8ByteSize := by
+  unfold tickerOfBytes at h
+  by_cases he : data.isEmpty = true
+  · rw [if_pos he] at h; cases h
+  · rw [if_neg he] at h
+    simp only at h
+    by_cases hq : (data.toList.head? == some '"') = true
+    · simp only [hq, if_true] at h
+      by_cases h3 : (trimQuotes data).utf8ByteSize < 3
+      · rw [if_pos h3] at h; cases h
+      · rw [if_neg h3] at h
+        by_cases h0 : stringToTicker P (trimQuotes data) = 0
+        · rw [if_pos h0] at h; cases h
+        · rw [if_neg h0] at h
+          injection h with h
+          rw [tickerName_of_string h hv]
+          exact trimQuotes_size_le data
+    · simp only [hq, if_false, Bool.false_eq_true] at h
+      by_cases h3 : data.utf8ByteSize < 3
+      · rw [if_pos h3] at h; cases h
+      · rw [if_neg h3] at h
+        by_cases h0 : stringToTicker P data = 0
+        · rw [if_pos h0] at h; cases h
+        · rw [if_neg h0] at h
+          injection h with h
+          rw [tickerName_of_string h hv]
+          exact Nat.le_refl _
+
+
+theorem decTyped_keys {P : Params} {j : J} {r : Addr × Nat × Ticker} (hwf : J.WF j) (h : decTyped P j = some r) :
+    ∃ fs, j = .obj fs ∧ exactKeys ["address", "amount", "type"] fs := by
+  unfold decTyped at h
+  cases j with
+  | obj fs =>
+    refine ⟨fs, rfl, ?_⟩
+    have hwff : J.WFFields fs := by simpa [J.WF] using hwf
+    simp only at h
+    cases ht : lookupField fs "type" with
+    | none =>
+      -- the type stays PTickerInvalid: refused
+      rw [ht] at h
+      simp only at h
+      cases ha : lookupField fs "address" with
+      | none => rw [ha] at h; simp at h
+      | some aj =>
+        cases hn : lookupField fs "amount" with
+        | none => rw [ha, hn] at h; simp at h
+        | some nj =>
+          rw [ha, hn] at h
+          simp only at h
+          cases hda : decAddr P aj with
+          | none => rw [hda] at h; simp at h
+          | some a =>
+            cases hdn : decUint nj with
+            | none => rw [hda, hdn] at h; simp at h
+            | some n =>
+              rw [hda, hdn] at h
+              simp [validTicker] at h
+    | some tj =>
+      rw [ht] at h
+      simp only at h
+      cases hdt : decTickerQuoted P tj with
+      | none => rw [hdt] at h; cases h
+      | some ty =>
+        rw [hdt] at h
+        simp only at h
+        cases ha : lookupField fs "address" with
+        | none => rw [ha] at h; simp at h
+        | some aj =>
+          cases hn : lookupField fs "amount" with
+          | none => rw [ha, hn] at h; simp at h
+          | some nj =>
+            rw [ha, hn] at h
+            simp only at h
+            cases hda : decAddr P aj with
+            | none => rw [hda] at h; simp at h
+            | some a =>
+              cases hdn : decUint nj with
+              | none => rw [hda, hdn] at h; simp at h
+              | some n =>
+                rw [hda, hdn] at h
+                simp only at h
+                by_cases hv : validTicker P ty = true
+                · simp only [hv, not_true_eq_false, if_false] at h
+                  by_cases hl : 32 + J.len aj + J.len nj + (tickerName P ty).utf8ByteSize = J.len (.obj fs)
+                  · -- the "type" value is a string whose lexeme is at least two bytes longer than the ticker
+                    have htl : (tickerName P ty).utf8ByteSize + 2 ≤ J.len tj := by
+                      unfold decTickerQuoted at hdt
+                      cases tj with
+                      | str lex val ad =>
+                        simp only at hdt
+                        have h1 := tickerOfBytes_size hdt hv
+                        have h2 : val.utf8ByteSize + 2 ≤ lex.utf8ByteSize := by
+                          have := lookup_wf hwff ht
+                          simpa [J.WF] using this
+                        simp only [J.len]
+                        omega
+                      | _ => simp at hdt
+                    have hw : ∀ f ∈ fs, Field.wf f := fun f hf => (wfFields_mem hwff f hf).1
+                    apply accounting_sound ["address", "amount", "type"] (by decide) (by simp) fs hw
+                      (fun n => if n = "address" then aj else if n = "amount" then nj else tj)
+                    · intro n hn'
+                      simp only [List.mem_cons, List.mem_nil_iff, or_false] at hn'
+                      rcases hn' with rfl | rfl | rfl
+                      · simpa using ha
+                      · simpa using hn
+                      · simpa using ht
+                    · rw [← hl]
+                      have e1 : "address".length = 7 := by decide
+                      have e2 : "amount".length = 6 := by decide
+                      have e3 : "type".length = 4 := by decide
+                      simp [e1, e2, e3]
+                      omega
+                  · rw [if_neg hl] at h; cases h
+                · simp [hv] at h
+  | _ => simp at h
+
+
+/-! ### Transaction -/
+
+/-- the optional key of a transaction object -/
+def metaNames (fs : List Field) : List String :=
+  if (lookupField fs "metadata").isSome then ["metadata"] else []
+
+theorem decTx_keys {P : Params} {j : J} {t : Tx} (hwf : J.WF j) (h : decTx P j = some t)
+    (hval : t.transfers ≠ [] ∨ t.isConversion P = true) :
+    ∃ fs ij, j = .obj fs ∧ lookupField fs "input" = some ij ∧ (decTyped P ij).isSome = true ∧
+      exactKeys ("input" :: (if t.isConversion P then "conversion" else "transfers") :: metaNames fs) fs := by
+  unfold decTx at h
+  cases j with
+  | obj fs =>
+    have hwff : J.WFFields fs := by simpa [J.WF] using hwf
+    have hw : ∀ f ∈ fs, Field.wf f := fun f hf => (wfFields_mem hwff f hf).1
+    simp only at h
+    cases hi : lookupField fs "input" with
+    | none => rw [hi] at h; cases h
+    | some ij =>
+      rw [hi] at h
+      simp only at h
+      cases hdi : decTyped P ij with
+      | none => rw [hdi] at h; cases h
+      | some r =>
+        obtain ⟨a, n, ty⟩ := r
+        rw [hdi] at h
+        simp only at h
+        refine ⟨fs, ij, rfl, hi, by rw [hdi]; rfl, ?_⟩
+        cases htr : decTransfersField P (lookupField fs "transfers") with
+        | none => rw [htr] at h; cases h
+        | some trs =>
+          rw [htr] at h
+          simp only at h
+          cases hcv : decConversionField P (lookupField fs "conversion") with
+          | none => rw [hcv] at h; cases h
+          | some conv =>
+            rw [hcv] at h
+            simp only at h
+            by_cases hlen : expectedTxLen P fs ij { inAddr := a, inType := ty, inAmount := n, transfers := trs, conversion := conv } = J.len (.obj fs)
+            · rw [if_pos hlen] at h
+              unfold expectedTxLen at hlen
+              injection h with h
+              subst h
+              have e1 : "input".length = 5 := by decide
+              have e2 : "conversion".length = 10 := by decide
+              have e3 : "transfers".length = 9 := by decide
+              have e4 : "metadata".length = 8 := by decide
+              by_cases hc : (({ inAddr := a, inType := ty, inAmount := n, transfers := trs, conversion := conv } : Tx).isConversion P) = true
+              · -- conversion: the key is present (an absent key leaves the ticker at 0)
+                rw [if_pos hc] at hlen ⊢
+                cases hcj : lookupField fs "conversion" with
+                | none =>
+                  rw [hcj] at hcv
+                  simp only [decConversionField] at hcv
+                  injection hcv with hcv
+                  subst hcv
+                  simp [Tx.isConversion] at hc
+                | some cj =>
+                  rw [hcj] at hlen
+                  simp only [optLen] at hlen
+                  unfold metaNames
+                  cases hm : lookupField fs "metadata" with
+                  | none =>
+                    rw [hm] at hlen
+                    simp only [Option.isSome_none, Bool.false_eq_true, if_false]
+                    apply accounting_sound ["input", "conversion"] (by decide) (by simp) fs hw
+                      (fun x => if x = "input" then ij else cj)
+                    · intro x hx
+                      simp only [List.mem_cons, List.mem_nil_iff, or_false] at hx
+                      rcases hx with rfl | rfl
+                      · simpa using hi
+                      · simpa using hcj
+                    · rw [← hlen]; simp [e1, e2]; omega
+                  | some mj =>
+                    rw [hm] at hlen
+                    simp only [Option.isSome_some, if_true]
+                    apply accounting_sound ["input", "conversion", "metadata"] (by decide) (by simp) fs hw
+                      (fun x => if x = "input" then ij else if x = "conversion" then cj else mj)
+                    · intro x hx
+                      simp only [List.mem_cons, List.mem_nil_iff, or_false] at hx
+                      rcases hx with rfl | rfl | rfl
+                      · simpa using hi
+                      · simpa using hcj
+                      · simpa using hm
+                    · rw [← hlen]; simp [e1, e2, e4]; omega
+              · -- transfers: non-empty, hence the key is present
+                rw [if_neg hc] at hlen ⊢
+                have hne : trs ≠ [] := by
+                  rcases hval with hv | hv
+                  · exact hv
+                  · exact absurd hv hc
+                cases htj : lookupField fs "transfers" with
+                | none =>
+                  rw [htj] at htr
+                  simp only [decTransfersField] at htr
+                  injection htr with htr
+                  exact absurd htr.symm hne
+                | some tj =>
+                  rw [htj] at hlen
+                  simp only [optLen] at hlen
+                  unfold metaNames
+                  cases hm : lookupField fs "metadata" with
+                  | none =>
+                    rw [hm] at hlen
+                    simp only [Option.isSome_none, Bool.false_eq_true, if_false]
+                    apply accounting_sound ["input", "transfers"] (by decide) (by simp) fs hw
+                      (fun x => if x = "input" then ij else tj)
+                    · intro x hx
+                      simp only [List.mem_cons, List.mem_nil_iff, or_false] at hx
+                      rcases hx with rfl | rfl
+                      · simpa using hi
+                      · simpa using htj
+                    · rw [← hlen]; simp [e1, e3]; omega
+                  | some mj =>
+                    rw [hm] at hlen
+                    simp only [Option.isSome_some, if_true]
+                    apply accounting_sound ["input", "transfers", "metadata"] (by decide) (by simp) fs hw
+                      (fun x => if x = "input" then ij else if x = "transfers" then tj else mj)
+                    · intro x hx
+                      simp only [List.mem_cons, List.mem_nil_iff, or_false] at hx
+                      rcases hx with rfl | rfl | rfl
+                      · simpa using hi
+                      · simpa using htj
+                      · simpa using hm
+                    · rw [← hlen]; simp [e1, e3, e4]; omega
+            · rw [if_neg hlen] at h; cases h
+  | _ => simp at h
+
+
+/-! ### TransactionBatch -/
+
+/-- two lists of equal length whose elements are related position by position -/
+inductive AllPairs {α β : Type} (R : α → β → Prop) : List α → List β → Prop where
+  | nil : AllPairs R [] []
+  | cons {a b as bs} : R a b → AllPairs R as bs → AllPairs R (a :: as) (b :: bs)
+
+theorem decTxs_forall {P : Params} : ∀ {items : List J} {txs : List Tx}, decTxs P items = some txs →
+    AllPairs (fun x t => decTx P x = some t) items txs
+  | [], txs, h => by
+    simp only [decTxs] at h
+    injection h with h; subst h; exact AllPairs.nil
+  | x :: xs, txs, h => by
+    simp only [decTxs] at h
+    cases hx : decTx P x with
+    | none => rw [hx] at h; simp at h
+    | some t =>
+      cases hxs : decTxs P xs with
+      | none => rw [hx, hxs] at h; simp at h
+      | some ts =>
+        rw [hx, hxs] at h
+        simp only at h
+        injection h with h; subst h
+        exact AllPairs.cons hx (decTxs_forall hxs)
+
+theorem decTuples_forall {P : Params} : ∀ {items : List J} {trs : List Transfer}, decTuples P items = some trs →
+    AllPairs (fun x t => decTuple P x = some t) items trs
+  | [], trs, h => by
+    simp only [decTuples] at h
+    injection h with h; subst h; exact AllPairs.nil
+  | x :: xs, trs, h => by
+    simp only [decTuples] at h
+    cases hx : decTuple P x with
+    | none => rw [hx] at h; simp at h
+    | some t =>
+      cases hxs : decTuples P xs with
+      | none => rw [hx, hxs] at h; simp at h
+      | some ts =>
+        rw [hx, hxs] at h
+        simp only at h
+        injection h with h; subst h
+        exact AllPairs.cons hx (decTuples_forall hxs)
+
+theorem decBatch_keys {P : Params} {j : J} {v : Nat} {txs : List Tx} (hwf : J.WF j) (h : decBatch P j = some (v, txs)) :
+    ∃ fs tj, j = .obj fs ∧ exactKeys ["version", "transactions"] fs ∧ lookupField fs "transactions" = some tj ∧
+      ((tj = .null ∧ txs = []) ∨ ∃ items, tj = .arr items ∧ decTxs P items = some txs) := by
+  unfold decBatch at h
+  cases j with
+  | obj fs =>
+    have hwff : J.WFFields fs := by simpa [J.WF] using hwf
+    have hw : ∀ f ∈ fs, Field.wf f := fun f hf => (wfFields_mem hwff f hf).1
+    simp only at h
+    cases hv : lookupField fs "version" with
+    | none => rw [hv] at h; simp at h
+    | some vj =>
+      cases ht : lookupField fs "transactions" with
+      | none => rw [hv, ht] at h; simp at h
+      | some tj =>
+        rw [hv, ht] at h
+        simp only at h
+        cases hdv : decUint vj with
+        | none => rw [hdv] at h; cases h
+        | some v' =>
+          rw [hdv] at h
+          simp only at h
+          have hkeys : ∀ txs', (if 28 + J.len vj + J.len tj = J.len (.obj fs) then some (v', txs') else none) = some (v, txs) →
+              exactKeys ["version", "transactions"] fs ∧ txs' = txs := by
+            intro txs' hh
+            by_cases hl : 28 + J.len vj + J.len tj = J.len (.obj fs)
+            · rw [if_pos hl] at hh
+              injection hh with hh
+              injection hh with _ hh
+              refine ⟨?_, hh⟩
+              apply accounting_sound ["version", "transactions"] (by decide) (by simp) fs hw
+                (fun x => if x = "version" then vj else tj)
+              · intro x hx
+                simp only [List.mem_cons, List.mem_nil_iff, or_false] at hx
+                rcases hx with rfl | rfl
+                · simpa using hv
+                · simpa using ht
+              · rw [← hl]
+                have e1 : "version".length = 7 := by decide
+                have e2 : "transactions".length = 12 := by decide
+                simp [e1, e2]
+                omega
+            · rw [if_neg hl] at hh; cases hh
+          cases tj with
+          | null =>
+            simp only at h
+            obtain ⟨hk, he⟩ := hkeys [] h
+            exact ⟨fs, .null, rfl, hk, ht, Or.inl ⟨rfl, he.symm⟩⟩
+          | arr items =>
+            simp only at h
+            cases hd : decTxs P items with
+            | none => rw [hd] at h; cases h
+            | some txs' =>
+              rw [hd] at h
+              simp only at h
+              obtain ⟨hk, he⟩ := hkeys txs' h
+              exact ⟨fs, .arr items, rfl, hk, ht, Or.inr ⟨items, rfl, by rw [hd, he]⟩⟩
+          | tru => simp at h
+          | fals => simp at h
+          | num _ => simp at h
+          | str _ _ _ => simp at h
+          | obj _ => simp at h
+  | _ => simp at h
+
+/-- what the property calls canonical form, for one transaction object -/
+def CanonicalTx (P : Params) (x : J) (t : Tx) : Prop :=
+  ∃ tfs ij ifs, x = .obj tfs ∧ lookupField tfs "input" = some ij ∧ ij = .obj ifs ∧
+    exactKeys ["address", "amount", "type"] ifs ∧
+    exactKeys ("input" :: (if t.isConversion P then "conversion" else "transfers") :: metaNames tfs) tfs
+
+/-- **Accepted ⇒ canonical keys, all the way down.** If `TransactionBatch.UnmarshalJSON` accepts a
+    document and every decoded transaction has transfers or is a conversion (what
+    `Transaction.Validate` demands), then: the batch object has exactly the keys `version` and
+    `transactions`, once each; every transaction object has exactly `input`, exactly one of
+    `transfers` / `conversion` (the one its decoded form uses) and at most one `metadata`, and
+    nothing else; every input object has exactly `address`, `amount`, `type`. No duplicate key, no
+    unknown key, on any level. -/
+theorem accepted_is_canonical {P : Params} {j : J} {v : Nat} {txs : List Tx} (hwf : J.WF j)
+    (h : decBatch P j = some (v, txs)) (hne : txs ≠ [])
+    (hval : ∀ t ∈ txs, t.transfers ≠ [] ∨ t.isConversion P = true) :
+    ∃ fs items, j = .obj fs ∧ exactKeys ["version", "transactions"] fs ∧
+      lookupField fs "transactions" = some (.arr items) ∧ AllPairs (CanonicalTx P) items txs := by
+  obtain ⟨fs, tj, hj, hk, hl, hcase⟩ := decBatch_keys hwf h
+  rcases hcase with ⟨_, he⟩ | ⟨items, hti, hd⟩
+  · exact absurd he hne
+  · subst hti
+    refine ⟨fs, items, hj, hk, hl, ?_⟩
+    have hwfi : J.WFItems items := by
+      have := lookup_wf (by subst hj; simpa [J.WF] using hwf) hl
+      simpa [J.WF] using this
+    have hf := decTxs_forall hd
+    have key : ∀ (items : List J) (txs : List Tx), J.WFItems items →
+        (∀ t ∈ txs, t.transfers ≠ [] ∨ t.isConversion P = true) →
+        AllPairs (fun x t => decTx P x = some t) items txs → AllPairs (CanonicalTx P) items txs := by
+      intro items txs hwfi hval hf
+      induction hf with
+      | nil => exact AllPairs.nil
+      | @cons x t xs ts hx _ ih =>
+        simp only [J.WFItems] at hwfi
+        refine AllPairs.cons ?_ (ih hwfi.2 (fun t' ht' => hval t' (List.mem_cons_of_mem _ ht')))
+        obtain ⟨tfs, ij, hxo, hin, hsome, hkeys⟩ := decTx_keys hwfi.1 hx (hval t List.mem_cons_self)
+        cases hdi : decTyped P ij with
+        | none => rw [hdi] at hsome; cases hsome
+        | some r =>
+          have hwfij : J.WF ij := lookup_wf (by subst hxo; simpa [J.WF] using hwfi.1) hin
+          obtain ⟨ifs, hio, hik⟩ := decTyped_keys hwfij hdi
+          exact ⟨tfs, ij, ifs, hxo, hin, hio, hik, hkeys⟩
+    exact key items txs hwfi hval hf
 
 end Pegnet
